@@ -75,11 +75,11 @@ func c25Same(a, b interface{}, depth int) bool {
 func Harness_C25_values() {
 	var v interface{}
 	if nondetBool("toplist") {
-		n := nondetRange("n", 3)
+		n := nondetRange("n", param("maxn")+1)
 		var l []interface{}
 		for i := 0; i < n; i++ {
 			if nondetBool("inner.list") {
-				m := nondetRange("m", 3)
+				m := nondetRange("m", param("maxn")+1)
 				var in []interface{}
 				for j := 0; j < m; j++ {
 					in = append(in, c25Leaf("leaf"))
